@@ -473,7 +473,7 @@ func (x *c10ctx) checkLoops(f *ssa.Function, rule string) {
 			// (i) induction against an invariant bound
 			for _, side := range []struct {
 				i, bnd ssa.Value
-				op      token.Token
+				op     token.Token
 			}{{bo.X, bo.Y, op}, {bo.Y, bo.X, flipOp(op)}} {
 				iv0 := side.i
 				if bo2, ok := iv0.(*ssa.BinOp); ok && (bo2.Op == token.ADD || bo2.Op == token.SUB) {
